@@ -927,9 +927,204 @@ fn run_peer(args: &[String]) -> serde_json::Value {
     }
 }
 
+/// the python peer as a TLS server: (child, stdout reader, port) once it is listening
+fn start_peer_server(args: &[String]) -> Option<(std::process::Child, std::io::BufReader<std::process::ChildStdout>, u16)> {
+    use std::io::BufRead;
+    let script = verif_root().join("peers").join("tls_peer.py");
+    let mut child = std::process::Command::new("python3")
+        .arg(script)
+        .arg("server")
+        .args(args)
+        .stdin(std::process::Stdio::null())
+        .stdout(std::process::Stdio::piped())
+        .stderr(std::process::Stdio::null())
+        .spawn()
+        .ok()?;
+    let mut reader = std::io::BufReader::new(child.stdout.take()?);
+    let mut first = String::new();
+    reader.read_line(&mut first).ok()?;
+    let port: u16 = first.trim().strip_prefix("LISTENING ")?.trim().parse().ok()?;
+    Some((child, reader, port))
+}
+
+fn finish_peer_server(mut child: std::process::Child, reader: std::io::BufReader<std::process::ChildStdout>) -> serde_json::Value {
+    use std::io::BufRead;
+    let t0 = Instant::now();
+    loop {
+        match child.try_wait() {
+            Ok(Some(_)) => break,
+            Ok(None) if t0.elapsed() > Duration::from_secs(15) => {
+                let _ = child.kill();
+                let _ = child.wait();
+                break;
+            }
+            Ok(None) => std::thread::sleep(Duration::from_millis(20)),
+            Err(_) => break,
+        }
+    }
+    let mut last = String::new();
+    for l in reader.lines().map_while(Result::ok) {
+        if l.trim_start().starts_with('{') {
+            last = l;
+        }
+    }
+    serde_json::from_str(&last).unwrap_or(json!({"parse_error": last}))
+}
+
+/// TLS client settings through the C ABI: expected name and its wildcard switch, minimum version,
+/// certificate mode - judged against an independent TLS server (python) and, for the creation
+/// result, against the Rust constructor given the same values
+fn tls_client_configuration(rt: &Rt, ev: &mut Evidence) {
+    struct Cell {
+        name: &'static str,
+        dns: &'static str,
+        wildcard: bool,
+        mode: i32, // 0 authority, 1 self-signed
+        min: i32,  // 0 = 1.2, 1 = 1.3
+        server_cert: &'static str,
+        server_max: &'static str,
+        /// None: creation must fail; Some(admit)
+        expect: Option<bool>,
+    }
+    let cells = [
+        Cell { name: "name_matches", dns: "test.server", wildcard: false, mode: 0, min: 0, server_cert: "server_valid", server_max: "1.3", expect: Some(true) },
+        Cell { name: "name_differs", dns: "test.server", wildcard: false, mode: 0, min: 0, server_cert: "server_wrong_name", server_max: "1.3", expect: Some(false) },
+        Cell { name: "name_differs_wildcard_flag_set_but_name_given", dns: "test.server", wildcard: true, mode: 0, min: 0, server_cert: "server_wrong_name", server_max: "1.3", expect: Some(false) },
+        Cell { name: "star_with_wildcard_flag", dns: "*", wildcard: true, mode: 0, min: 0, server_cert: "server_wrong_name", server_max: "1.3", expect: Some(true) },
+        Cell { name: "star_without_wildcard_flag", dns: "*", wildcard: false, mode: 0, min: 0, server_cert: "server_wrong_name", server_max: "1.3", expect: None },
+        Cell { name: "wrong_authority", dns: "test.server", wildcard: false, mode: 0, min: 0, server_cert: "server_wrong_ca", server_max: "1.3", expect: Some(false) },
+        Cell { name: "min13_server_12_only", dns: "test.server", wildcard: false, mode: 0, min: 1, server_cert: "server_valid", server_max: "1.2", expect: Some(false) },
+        Cell { name: "min12_server_12_only", dns: "test.server", wildcard: false, mode: 0, min: 0, server_cert: "server_valid", server_max: "1.2", expect: Some(true) },
+        Cell { name: "min13_server_13", dns: "test.server", wildcard: false, mode: 0, min: 1, server_cert: "server_valid", server_max: "1.3", expect: Some(true) },
+        Cell { name: "self_signed_same_certificate", dns: "ignored", wildcard: false, mode: 1, min: 0, server_cert: "ss_server", server_max: "1.3", expect: Some(true) },
+        Cell { name: "self_signed_other_certificate", dns: "ignored", wildcard: false, mode: 1, min: 0, server_cert: "ss_server_other", server_max: "1.3", expect: Some(false) },
+    ];
+    for c in cells.iter() {
+        ev.eval();
+        ev.count("configuration_cells", 1);
+        let (peer_cert, local, key, ca_for_server) = if c.mode == 0 {
+            (fixture("ca1.cert.pem"), fixture("client_operator.cert.pem"), fixture("client_operator.key.pem"), fixture("ca1.cert.pem"))
+        } else {
+            (fixture("ss_server.cert.pem"), fixture("ss_client.cert.pem"), fixture("ss_client.key.pem"), fixture("ss_client.cert.pem"))
+        };
+        // what the Rust constructor says about the same values
+        let rust = {
+            use rodbus::client::TlsClientConfig as T;
+            let min = if c.min == 0 { rodbus::client::MinTlsVersion::V1_2 } else { rodbus::client::MinTlsVersion::V1_3 };
+            let (pc, lc, k) = (std::path::PathBuf::from(&peer_cert), std::path::PathBuf::from(&local), std::path::PathBuf::from(&key));
+            if c.mode == 0 {
+                let name = if c.wildcard && c.dns == "*" { None } else { Some(c.dns.to_string()) };
+                T::full_pki(name, &pc, &lc, &k, None, min).is_ok()
+            } else {
+                T::self_signed(&pc, &lc, &k, None, min).is_ok()
+            }
+        };
+        let Some((child, reader, port)) = start_peer_server(&[
+            "--ca".into(), ca_for_server, "--cert".into(), fixture(&format!("{}.cert.pem", c.server_cert)), "--key".into(), fixture(&format!("{}.key.pem", c.server_cert)),
+            "--min".into(), "1.2".into(), "--max".into(), c.server_max.into(), "--wait".into(), "2".into(), "--accept-wait".into(), "4".into(),
+        ]) else {
+            ev.inconclusive("python TLS server did not start (C18 TLS client cells)");
+            continue;
+        };
+        let (d, a, b, k, pw) = (cstr(c.dns), cstr(&peer_cert), cstr(&local), cstr(&key), cstr(""));
+        let tls = ffi::TlsClientConfig { dns_name: d.as_ptr(), peer_cert_path: a.as_ptr(), local_cert_path: b.as_ptr(), private_key_path: k.as_ptr(), password: pw.as_ptr(), min_tls_version: c.min, certificate_mode: c.mode, allow_server_name_wildcard: c.wildcard };
+        let (states, listener) = client_listener();
+        let mut ch = std::ptr::null_mut();
+        let host = cstr("127.0.0.1");
+        let rc = unsafe { ffi::rodbus_client_channel_create_tls(rt.0, host.as_ptr(), port, 4, retry(5000, 5000), tls, decode(0, 0, 0), listener, &mut ch) };
+        let cellname = format!("config|tls_client|{}", c.name);
+        let rep = json!({"cell": c.name, "dns_name": c.dns, "allow_server_name_wildcard": c.wildcard, "certificate_mode": c.mode, "min_tls_version": c.min, "server_presents": c.server_cert, "server_max": c.server_max});
+        if (rc == 0) != rust {
+            ev.violation(
+                format!("{cellname}:creation_differs_from_rust_api:rc={rc}"),
+                format!("rodbus_client_channel_create_tls returned param error {} but the Rust constructor with the same values {}", rc, if rust { "succeeds" } else { "fails" }),
+                rep.clone(),
+            );
+        }
+        if c.expect.is_none() && rc == 0 {
+            ev.violation(format!("{cellname}:created_although_invalid"), "a channel was created from a configuration the Rust API rejects".to_string(), rep.clone());
+        }
+        if rc != 0 {
+            ev.class(format!("{cellname}|creation_refused:{}", rc));
+            drop(states);
+            let _ = finish_peer_server(child, reader);
+            continue;
+        }
+        let chan = CChannel { ch, states };
+        chan.enable();
+        // Connected, or a wait state after the failed attempt (the retry delay is 5 s: one attempt only)
+        let t0 = Instant::now();
+        while t0.elapsed() < Duration::from_secs(4) {
+            if chan.states.seq.lock().unwrap().iter().any(|s| matches!(s, 2 | 3 | 4)) {
+                break;
+            }
+            std::thread::sleep(Duration::from_millis(2));
+        }
+        let connected = chan.states.seq.lock().unwrap().contains(&2);
+        let mut served = false;
+        if connected {
+            let req = ClientReq::WriteSingleReg { addr: 7, value: 0xBEEF };
+            let (rc, cb) = chan.op(&req, 1, 1500);
+            if rc == 0 {
+                cb.wait(Duration::from_secs(3));
+                served = matches!(cb.outcome(), Outcome::Ok);
+            }
+        }
+        chan.destroy();
+        let peer = finish_peer_server(child, reader);
+        let got_request = peer["request_hex"].as_str().map(|h| !h.is_empty()).unwrap_or(false);
+        ev.class(format!("{cellname}|{}", if connected { "connected" } else { "refused" }));
+        match c.expect {
+            Some(true) if !served => ev.violation(format!("{cellname}:valid_server_refused"), format!("the server should be accepted with these settings: connected={connected} served={served} peer={peer}"), rep.clone()),
+            Some(false) if connected || got_request => ev.violation(format!("{cellname}:invalid_server_accepted"), format!("the server must be refused with these settings: Connected reported={connected}, Modbus bytes sent to it={got_request}"), rep.clone()),
+            _ => ev.count("tls_client_configuration_cells_as_expected", 1),
+        }
+    }
+}
+
 /// configuration passes through unchanged: TLS settings (minimum version, certificate mode),
 /// retry strategy delays, serial port settings
 fn configuration(rt: &Rt, ev: &mut Evidence) {
+    // --- max_queued_requests: against a silent peer the channel holds one outstanding request plus
+    // exactly `max_queued_requests` queued ones; the rest is refused at the call. (The first request
+    // may or may not have left the queue when the burst arrives: k or k+1 accepted.)
+    for k in [1u16, 4, 9] {
+        let peer = Peer::start();
+        for _ in 0..24 {
+            peer.push(Mode::Silence);
+        }
+        let ch = CChannel::tcp(rt, peer.port, k, decode(0, 0, 0));
+        ch.enable();
+        if !ch.wait_state(2, Duration::from_secs(5)) {
+            ev.inconclusive("C-ABI channel did not connect (max_queued_requests cell)");
+            ch.destroy();
+            continue;
+        }
+        let req = ClientReq::Read { kind: Kind::ReadHolding, start: 0, count: 1 };
+        let (rc0, _c0) = ch.op(&req, 1, 1500);
+        std::thread::sleep(Duration::from_millis(100));
+        let mut accepted = usize::from(rc0 == 0);
+        let mut calls = vec![];
+        for _ in 0..16 {
+            let (rc, c) = ch.op(&req, 1, 1500);
+            if rc == 0 {
+                accepted += 1;
+            }
+            calls.push((rc, c));
+        }
+        ev.eval();
+        ev.count("configuration_cells", 1);
+        ev.class(format!("config|max_queued_requests={k}|accepted={accepted}"));
+        if accepted != k as usize && accepted != k as usize + 1 {
+            ev.violation(
+                format!("config:max_queued_requests={k}:accepted={accepted}"),
+                format!("channel created with max_queued_requests={k}: {accepted} of 17 requests were accepted while the peer stayed silent (expected {k} queued + the outstanding one)"),
+                json!({"max_queued_requests": k}),
+            );
+        }
+        ch.destroy();
+    }
+    tls_client_configuration(rt, ev);
     // --- TLS server through the C ABI: {min 1.2, 1.3} x {authority, self-signed} vs a python peer
     for (min, mode) in [(0i32, 0i32), (1, 0), (0, 1), (1, 1)] {
         let (peer_cert, local, key) = if mode == 0 {
@@ -1115,6 +1310,7 @@ pub fn run(args: &Args) -> i32 {
     }
     port_states(&rt, &mut ev);
     configuration(&rt, &mut ev);
+    crate::c18srv::run(&rt, &trt, &mut ev);
     ev.sample(json!({"client_scenario": "rodbus_client_channel_read_holding_registers(unit, range, timeout) against a scripted peer answering [genuine, exception 0x01..0xFF, bad response, silence, ...]; the same list through rodbus::client::Channel", "server_scenario": "WriteHandler callbacks returning {success | exception enum | Unknown+raw code} for FC05/06/15/16 observed by a raw TCP client"}));
     unsafe { ffi::rodbus_runtime_destroy(rt.0) };
     if args.tier == Tier::Thorough && !args.extra.contains_key("no-legs") {
@@ -1124,7 +1320,7 @@ pub fn run(args: &Args) -> i32 {
     let meta = Meta {
         property_id: "C18",
         level: "exploration",
-        rule: "one evaluation = one compared observable. Client: all eight operations through rodbus_client_channel_* with random arguments, unit ids and timeouts against a scripted loopback peer producing genuine replies, the 9 standard and all 256 raw exception codes, bad response, bad framing, close, silence, no listener, channel destroyed while pending, full queue; the same scenario runs through the Rust API; outcomes are compared after mapping names through an independent table, request bytes are compared with the reference encoder and with the Rust run, timeouts are measured. Server: a C-ABI write handler answering success / each standard exception / raw codes through WriteResult for all four write functions, observed by a raw client. Completion callbacks must sum to one and on_destroy must be one for every callback object. Decode levels: each of the 36 levels through the C ABI and through the Rust API with the process-wide C logger, message sets compared. Client/port state listeners compared by name. distinct = (surface, operation, condition, reported name)".into(),
+        rule: "one evaluation = one compared observable. Client: all eight operations through rodbus_client_channel_* with random arguments, unit ids and timeouts against a scripted loopback peer producing genuine replies, the 9 standard and all 256 raw exception codes, bad response, bad framing, close, silence, no listener, channel destroyed while pending, full queue; the same scenario runs through the Rust API; outcomes are compared after mapping names through an independent table, request bytes are compared with the reference encoder and with the Rust run, timeouts are measured. Server: a C-ABI write handler answering success / each standard exception / raw codes through WriteResult for all four write functions, observed by a raw client. Completion callbacks must sum to one and on_destroy must be one for every callback object. Decode levels: each of the 36 levels through the C ABI and through the Rust API with the process-wide C logger, message sets compared. Client/port state listeners compared by name. Configuration: max_queued_requests (accepted requests against a silent peer), TLS client settings (expected name and its wildcard switch, minimum version, certificate mode against an independent TLS server; creation result vs the Rust constructor), TLS server settings, retry delays, serial settings; max_sessions 2 / 256 / 258 through each of the three TCP/TLS server constructors; a C authorization handler with one callback per function answering by a bit mask (four masks): callback consulted, its arguments and role, client result, write-handler calls. distinct = (surface, operation, condition, reported name)".into(),
         assumptions: vec![
             "calls rejected for a parameter error before anything is queued may or may not fire a completion callback; on_destroy must still be 1".into(),
             "the harness is Rust linking the rodbus-ffi rlib and calling only the generated extern \"C\" functions with extern \"C\" callbacks".into(),
@@ -1139,6 +1335,9 @@ pub fn run(args: &Args) -> i32 {
             ("queue_full_rejections".into(), 8),
             ("shutdown_completions".into(), 8),
             ("tls_configuration_cells".into(), 8),
+            ("max_sessions_cells_as_expected".into(), 9),
+            ("authorization_callbacks_checked".into(), 32),
+            ("tls_client_configuration_cells_as_expected".into(), 9),
         ],
         min_classes: 120,
     };
